@@ -1679,6 +1679,12 @@ fn judge_with(p: &Program, real: Option<Real>, out: &mut Out, hist: &mut Hist) {
             hist.add("oracle-not-applicable:reference-gave-up");
             "ok".to_string()
         }
+        (Real::Ok(_), Err(RefErr::PasteInvalid)) => {
+            // C11 6.10.3.3p3: if the result of `##` is not a valid preprocessing token the behaviour is undefined;
+            // RSSL pastes while it rescans, so an operand may have been consumed or produced by an expansion before
+            hist.add("oracle-not-applicable:paste-result-is-not-a-token-in-C(undefined)");
+            "ok".to_string()
+        }
         (Real::Ok(t), Ok(e)) if t == e => {
             hist.add("agree:tokens");
             "ok".to_string()
@@ -1696,6 +1702,8 @@ fn judge_with(p: &Program, real: Option<Real>, out: &mut Out, hist: &mut Hist) {
             let mut class = "unexplained".to_string();
             // smallest set of deviations that reproduces the real output
             let mut best: Option<u32> = None;
+            // did the program leave the property's subset once some known deviations are taken?
+            let mut oos_under_deviations = false;
             'search: for k in 1..=3u32 {
                 for bits in 1u32..(1 << DEV_NAMES.len()) {
                     // `paste-in-api-define` (4) and `duplicate-api-define` (32) were fixed in 9f7cdb8: not offered as
@@ -1705,6 +1713,9 @@ fn judge_with(p: &Program, real: Option<Real>, out: &mut Out, hist: &mut Hist) {
                     }
                     let mut n2 = RefNotes::default();
                     let alt = run_reference(p, Dev::from_bits(bits), &mut n2);
+                    if !n2.out_of_subset.is_empty() {
+                        oos_under_deviations = true;
+                    }
                     let same = match (&real, &alt) {
                         (Real::Ok(t), Ok(e)) => t == e,
                         (Real::Err(_), Err(_)) => true,
@@ -1740,8 +1751,8 @@ fn judge_with(p: &Program, real: Option<Real>, out: &mut Out, hist: &mut Hist) {
                 // the order of its rescan, which the switch above reproduces only for the simple shapes
                 class = DEV_NAMES[1].to_string();
             }
-            let mut na = false;
-            if class == "unexplained" {
+            let mut na = class == "unexplained" && oos_under_deviations;
+            if class == "unexplained" && !na {
                 // an unused argument that RSSL expands anyway may itself lie outside the subset
                 for i in 0..DEV_NAMES.len() {
                     let mut n2 = RefNotes::default();
